@@ -760,7 +760,7 @@ theorem process_spec (m : RInner) (i : RIn) (hw : WFp (pendingOf m))
 
 /-! ## the reference checker, clause by clause -/
 
-theorem stepOk_ok {ev : Option Ev} {r r' : R} {o : Obs}
+theorem stepOk_ok {cfg : Cfg} {ev : Option Ev} {r r' : R} {o : Obs}
     (h1 : ∀ c ∈ o.changes, held r c.fam = true → c.fam ∈ releasedNow r r')
     (h2 : ∀ f ∈ r.deferred, held r f = true → f ∉ releasedNow r r' →
             f ∈ o.flags ∧ mentions o.outs f = false)
@@ -770,8 +770,14 @@ theorem stepOk_ok {ev : Option Ev} {r r' : R} {o : Obs}
             ((ev.map isRd).getD true = true → ∀ c ∈ o.changes, c.fam ≠ f))
     (h6 : ∀ e ∈ o.pending, tracked r' e.1 = true ∧ e.2 ≠ [])
     (h7 : (o.tag = .awaiting ∨ o.tag = .deferring) → o.pending ≠ [])
-    (h8 : r'.waiting = [] → o.tag ≠ .awaiting ∧ o.tag ≠ .deferring ∧ o.installed = false) :
-    stepOk ev r r' o = .ok () := by
+    (h8 : r'.waiting = [] → o.tag ≠ .awaiting ∧ o.tag ≠ .deferring ∧ o.installed = false)
+    (h9 : o.tag ≠ .completed)
+    (h10 : r'.waiting ≠ [] → o.tag ≠ .absent ∧ o.installed = true)
+    (h11 : o.outs.filter isStartTimer =
+            (if (!r.started && r'.started) = true then [.startTimer (effDur cfg.dur)] else []))
+    (h12 : o.timer = timerAfter cfg r r')
+    (h13 : ev = none → ∀ f ∈ r'.deferred, f ∈ o.flags) :
+    stepOk cfg ev r r' o = .ok () := by
   unfold stepOk
   have c1 : (o.changes.any fun c => held r c.fam && !(releasedNow r r').contains c.fam) = false := by
     rw [List.any_eq_false]
@@ -813,21 +819,36 @@ theorem stepOk_ok {ev : Option Ev} {r r' : R} {o : Obs}
     intro e he
     obtain ⟨a, b⟩ := h6 e he
     simp [a, b]
-  simp only [c1, c2, c3, c4, c5, c6, Bool.false_eq_true, ↓reduceIte]
-  by_cases ht : o.tag = .awaiting ∨ o.tag = .deferring
-  · have hp := h7 ht
-    have hw : r'.waiting ≠ [] := fun h => by
-      obtain ⟨a, b, _⟩ := h8 h
-      rcases ht with ht | ht
-      · exact a ht
-      · exact b ht
-    rcases ht with ht | ht <;> simp [ht, hp, hw]
-  · have ht1 : o.tag ≠ .awaiting := fun h => ht (Or.inl h)
-    have ht2 : o.tag ≠ .deferring := fun h => ht (Or.inr h)
+  have c7 : ((o.tag = .awaiting || o.tag = .deferring) && o.pending.isEmpty) = false := by
+    by_cases ht : o.tag = .awaiting ∨ o.tag = .deferring
+    · have hp := h7 ht
+      have : o.pending.isEmpty = false := by cases hq : o.pending <;> simp_all
+      simp [this]
+    · have ht1 : o.tag ≠ .awaiting := fun h => ht (Or.inl h)
+      have ht2 : o.tag ≠ .deferring := fun h => ht (Or.inr h)
+      simp [ht1, ht2]
+  have c8 : (r'.waiting.isEmpty && (o.tag = .awaiting || o.tag = .deferring || o.installed)) = false := by
     by_cases hw : r'.waiting = []
-    · obtain ⟨_, _, c⟩ := h8 hw
-      simp [ht1, ht2, hw, c]
-    · simp [ht1, ht2, hw]
+    · obtain ⟨a, b, c⟩ := h8 hw
+      simp [a, b, c]
+    · have : r'.waiting.isEmpty = false := by cases hq : r'.waiting <;> simp_all
+      simp [this]
+  have c9 : decide (o.tag = .completed) = false := by simpa using h9
+  have c10 : (!r'.waiting.isEmpty && (o.tag = .absent || !o.installed)) = false := by
+    by_cases hw : r'.waiting = []
+    · simp [hw]
+    · obtain ⟨a, b⟩ := h10 hw
+      simp [a, b]
+  have c13 : (ev.isNone && r'.deferred.any (fun f => !o.flags.contains f)) = false := by
+    cases ev with
+    | some e => simp
+    | none =>
+        have := h13 rfl
+        simp only [Option.isNone_none, Bool.true_and, List.any_eq_false, Bool.not_eq_eq_eq_not, Bool.not_true,
+          Bool.not_eq_false, List.contains_eq_mem, decide_eq_true_eq]
+        simpa using this
+  simp only [c1, c2, c3, c4, c5, c6, c7, c8, c10, c13, h11, h12, Bool.false_eq_true, ↓reduceIte, ne_eq,
+    not_true_eq_false, h9]
 
 /-! ## the RIB part -/
 
@@ -836,7 +857,7 @@ theorem set_other (t : Tabs) {f g : Fam} (r : Rib) (h : g ≠ f) : (t.set f r) g
 
 /-- the announcement `end_deferral(f)` makes for a RIB -/
 def announce (f : Fam) (paths : List (Nat × Peer)) : List Change :=
-  (prefixes paths).map fun n => { fam := f, pfx := n, peers := peersOf n paths }
+  (prefixes paths).map fun n => { fam := f, pfx := n, peers := peersOf n paths, kind := .adv }
 
 theorem endDeferralFamilies_spec (fs : List Fam) (t : Tabs) :
     (∀ g, ((endDeferralFamilies fs t).1 g).paths = (t g).paths) ∧
@@ -873,11 +894,13 @@ theorem applyOuts_spec (s : St) (outs : List ROut) :
     (applyOuts s outs).1.tabs = (endDeferralFamilies (relFams outs) s.tabs).1 ∧
     (applyOuts s outs).2 = (endDeferralFamilies (relFams outs) s.tabs).2 ∧
     (applyOuts s outs).1.sd = (if (endRemaining outs).isSome then none else s.sd) ∧
-    (applyOuts s outs).1.univ = s.univ := by
+    (applyOuts s outs).1.univ = s.univ ∧
+    (applyOuts s outs).1.timer =
+      (if startsTimer outs then true else if (endRemaining outs).isSome then false else s.timer) := by
   unfold applyOuts relFams
   cases h : endRemaining outs with
-  | none => simp [endDeferralFamilies]
-  | some fs => simp [endDeferralFamilies_append]
+  | none => by_cases ht : startsTimer outs = true <;> simp [endDeferralFamilies, ht]
+  | some fs => by_cases ht : startsTimer outs = true <;> simp [endDeferralFamilies_append, ht]
 
 theorem mem_peersOf {n : Nat} {p : Peer} {paths : List (Nat × Peer)} :
     p ∈ peersOf n paths ↔ (n, p) ∈ paths := by
@@ -909,7 +932,7 @@ theorem exactRelease_announce {rib : List (Fam × Nat × Peer)} {f : Fam} {paths
     simp only [announce, List.mem_map] at hc'
     obtain ⟨n, hn, rfl⟩ := hc'
     obtain ⟨p0, hp0⟩ := mem_prefixes.mp hn
-    refine ⟨?_, ?_⟩
+    refine ⟨⟨?_, ?_⟩, by simp⟩
     · simp only [sameSet, Bool.and_eq_true, List.all_eq_true, List.contains_iff_mem, List.mem_map,
         List.mem_filter, decide_eq_true_eq]
       constructor
@@ -1027,5 +1050,144 @@ theorem process_tag (m : RInner) (i : RIn) (hw : WFp (pendingOf m)) (hm : (proce
                     refine ⟨p, fams0, ⟨rfl, rfl⟩, f, ?_⟩
                     rw [mem_pairs]
                     exact ⟨_, mem_replace.mpr (Or.inr ⟨rfl, old, mem_of_lookup_some hl⟩), by simp [hs]⟩
+
+/-! ## when `StartDeferralTimer` is emitted -/
+
+theorem filter_st_map (cs : List Fam) : (cs.map ROut.famComplete).filter isStartTimer = [] := by
+  induction cs with
+  | nil => rfl
+  | cons c cs ih => simp [isStartTimer, ih]
+
+theorem filter_st_completeFor (pend : Pending) (C : List Fam) : (completeFor pend C).filter isStartTimer = [] := by
+  rw [completeFor_shape]; exact filter_st_map _
+
+theorem filter_st_removePeer (pend : Pending) (p : Peer) : (removePeer pend p).2.filter isStartTimer = [] := by
+  unfold removePeer
+  cases lookup p pend with
+  | none => rfl
+  | some s => exact filter_st_completeFor _ _
+
+theorem filter_st_finishA (pend : Pending) (d : Option Nat) (out : List ROut) (h : out.filter isStartTimer = []) :
+    (finishAwaiting pend d out).2.filter isStartTimer = [] ∧ isDeferring (finishAwaiting pend d out).1 = false := by
+  unfold finishAwaiting
+  split <;> simp [List.filter_append, h, isStartTimer, isDeferring]
+
+theorem filter_st_finishD (pend : Pending) (out : List ROut) (h : out.filter isStartTimer = []) :
+    (finishDeferring pend out).2.filter isStartTimer = [] := by
+  unfold finishDeferring
+  split <;> simp [List.filter_append, h, isStartTimer]
+
+theorem filter_st_eorStep (pend : Pending) (p : Peer) (f : Fam) : (eorStep pend p f).2.filter isStartTimer = [] := by
+  unfold eorStep
+  cases lookup p pend with
+  | none => rfl
+  | some s =>
+      simp only
+      have : ∀ (b : Bool), (if b then [ROut.famComplete f] else []).filter isStartTimer = [] := by
+        intro b; cases b <;> simp [isStartTimer]
+      exact this _
+
+/-- `StartDeferralTimer(duration)` is emitted exactly when the machine leaves `AwaitingStart` for
+    `Deferring`, once, with the configured duration. -/
+theorem process_startTimer (m : RInner) (i : RIn) :
+    (process m i).2.filter isStartTimer =
+      (match m with
+       | .awaiting _ d => if isDeferring (process m i).1 then [.startTimer d] else []
+       | _ => []) := by
+  cases m with
+  | completed =>
+      have : process .completed i = (.completed, []) := by cases i <;> rfl
+      rw [this]; rfl
+  | deferring pend =>
+      cases i with
+      | timer => simp [process, isStartTimer]
+      | eor p f =>
+          have : process (.deferring pend) (.eor p f) =
+              (if (eorStep pend p f).1.isEmpty then (.completed, (eorStep pend p f).2 ++ [.endDeferral []])
+               else (.deferring (eorStep pend p f).1, (eorStep pend p f).2)) := rfl
+          rw [this]
+          split <;> simp [List.filter_append, filter_st_eorStep, isStartTimer]
+      | wd p =>
+          have : process (.deferring pend) (.wd p) =
+              finishDeferring (removePeer pend p).1 (removePeer pend p).2 := rfl
+          rw [this]; exact filter_st_finishD _ _ (filter_st_removePeer _ _)
+      | est p fams0 =>
+          simp only [process]
+          split
+          · exact filter_st_finishD _ _ (filter_st_removePeer _ _)
+          · split
+            · exact filter_st_completeFor _ _
+            · rfl
+  | awaiting pend dur =>
+      cases i with
+      | timer => simp [process, isDeferring]
+      | eor p f => simp [process, isDeferring]
+      | wd p =>
+          have : process (.awaiting pend dur) (.wd p) =
+              finishAwaiting (removePeer pend p).1 dur (removePeer pend p).2 := rfl
+          rw [this]
+          obtain ⟨a, b⟩ := filter_st_finishA (removePeer pend p).1 dur _ (filter_st_removePeer pend p)
+          simp [a, b]
+      | est p fams0 =>
+          simp only [process]
+          split
+          · obtain ⟨a, b⟩ := filter_st_finishA (removePeer pend p).1 dur _ (filter_st_removePeer pend p)
+            simp [a, b]
+          · split
+            · simp [List.filter_append, filter_st_completeFor, isStartTimer, isDeferring]
+            · simp [isDeferring]
+
+theorem finishAwaiting_dur (pend : Pending) (d0 : Option Nat) (out : List ROut) :
+    ∀ q d, (finishAwaiting pend d0 out).1 = .awaiting q d → d = d0 := by
+  intro q d h
+  unfold finishAwaiting at h
+  split at h
+  · cases h
+  · simp only [RInner.awaiting.injEq] at h; exact h.2.symm
+
+/-- the duration fixed at start-up stays with the machine for as long as it is `AwaitingStart` -/
+theorem process_awaiting_dur (pend : Pending) (d0 : Option Nat) (i : RIn) :
+    ∀ q d, (process (.awaiting pend d0) i).1 = .awaiting q d → d = d0 := by
+  intro q d h
+  cases i with
+  | timer => simp only [process, RInner.awaiting.injEq] at h; exact h.2.symm
+  | eor p f => simp only [process, RInner.awaiting.injEq] at h; exact h.2.symm
+  | wd p => exact finishAwaiting_dur _ _ _ q d h
+  | est p fams0 =>
+      simp only [process] at h
+      split at h
+      · exact finishAwaiting_dur _ _ _ q d h
+      · split at h
+        · cases h
+        · simp only [RInner.awaiting.injEq] at h; exact h.2.symm
+
+theorem startsTimer_iff (outs : List ROut) (d : Option Nat) (h : outs.filter isStartTimer = [.startTimer d]) :
+    startsTimer outs = d.isSome := by
+  have hmem : ∀ o ∈ outs, isStartTimer o = true → o = .startTimer d := by
+    intro o ho hs
+    have : o ∈ outs.filter isStartTimer := List.mem_filter.mpr ⟨ho, hs⟩
+    rw [h] at this; simpa using this
+  have hin : ROut.startTimer d ∈ outs := by
+    have : ROut.startTimer d ∈ outs.filter isStartTimer := by rw [h]; simp
+    exact (List.mem_filter.mp this).1
+  cases d with
+  | none =>
+      simp only [startsTimer, Option.isSome_none, List.any_eq_false]
+      intro o ho
+      cases o with
+      | startTimer x => have := hmem _ ho rfl; cases this; simp
+      | _ => simp
+  | some n =>
+      simp only [startsTimer, Option.isSome_some, List.any_eq_true]
+      exact ⟨_, hin, rfl⟩
+
+theorem startsTimer_false (outs : List ROut) (h : outs.filter isStartTimer = []) : startsTimer outs = false := by
+  simp only [startsTimer, List.any_eq_false]
+  intro o ho
+  cases o with
+  | startTimer x =>
+      have : ROut.startTimer x ∈ outs.filter isStartTimer := List.mem_filter.mpr ⟨ho, rfl⟩
+      rw [h] at this; simp at this
+  | _ => simp
 
 end Rbgp.Gr.Restarting
